@@ -47,6 +47,9 @@ func YieldV(site string) struct{}  { Yield(site); return struct{}{} }
 func Seq[T any](_ struct{}, v T) T { return v }
 func Gosched()                     { Yield("gosched") }
 
+// YieldT is a scheduling point usable inside a condition: `YieldT(site) && (cond)`.
+func YieldT(site string) bool { Yield(site); return true }
+
 // ---- math/rand ----
 
 func randStream() *rng {
